@@ -41,7 +41,8 @@ def _ops(seed):
     B = P.ints(g, (6, 6), -1, 1)
     S = (B @ B.T + 6 * np.eye(6))
     G = P.ints(g, (6, 6), -2, 2) + 5 * np.eye(6)
-    return {"S": S, "G": G}
+    B64 = P.ints(g, (64, 64), -1, 1)
+    return {"S": S, "G": G, "S64": B64 @ B64.T + 64 * np.eye(64)}
 
 
 def digest(x):
@@ -94,6 +95,11 @@ def events(seed):
     E["eigmax(Auto)"] = lambda: L.eigmax(psd())
     E["randomized_svd"] = lambda: randomized_svd(gen(), 3)
     E["lobpcg"] = lambda: lobpcg(psd(), max_iters=3)
+    # n >= 5 * block: scipy's lobpcg iterates on the start block (for smaller n it falls back to a dense eigh that ignores the block)
+    S64 = mats["S64"]
+    E["lobpcg(n=64,block=4)"] = lambda: lobpcg(cola.PSD(ops.Dense(S64.copy())), max_iters=4)
+    E["lobpcg(n=64,block=4,key=7)"] = lambda: lobpcg(cola.PSD(ops.Dense(S64.copy())), max_iters=4, key=7)
+    E["eig(LOBPCG(),n=64)"] = lambda: L.eig(cola.PSD(ops.Dense(S64.copy())), 2, "LM", LOBPCG(max_iters=4))
     E["eig(LOBPCG())"] = lambda: L.eig(psd(), 2, "LM", LOBPCG(max_iters=3))
     E["inv(CG,Nystrom)@b"] = lambda: L.inv(psd(), L.CG(tol=1e-8, max_iters=30, P=NystromPrecond(psd(), rank=2, key=3))) @ np.ones(6)
     E["logdet(Lanczos,Hutch)"] = lambda: L.logdet(psd(), L.Lanczos(max_iters=6, tol=1e-10), L.Hutch(tol=0.5, max_iters=2, key=1))
